@@ -276,6 +276,17 @@ directive @transform(op: String!) repeatable on FIELD
         ))
     }
 
+    /// Verification-only (feature `__verif`): the iteration orders this process currently
+    /// has for the hash maps holding vertex types and fields. Adds no behaviour of its own.
+    #[cfg(feature = "__verif")]
+    #[doc(hidden)]
+    pub fn verif_iteration_orders(&self) -> (Vec<String>, Vec<(String, String)>) {
+        (
+            self.vertex_types.keys().map(|k| k.to_string()).collect(),
+            self.fields.keys().map(|(t, f)| (t.to_string(), f.to_string())).collect(),
+        )
+    }
+
     pub(crate) fn query_type_name(&self) -> &str {
         self.schema.query.as_ref().unwrap().node.as_ref()
     }
